@@ -88,7 +88,9 @@ def main():
             report["c_unexpected"] = unexpected[:5]
         report["caught_by"] = {}
         for c in checks:
-            rc, out = sh(f"VERIF_REPO={wt} ./check {c} quick", cwd="/verif", timeout=3600)
+            # VERIF_ROOT: run the checks of a committed snapshot of /verif (a git worktree elsewhere) instead of
+            # the working tree, which other builders may be editing at the same time
+            rc, out = sh(f"VERIF_REPO={wt} VERIF_EVIDENCE_SCRATCH=1 ./check {c} quick", cwd=os.environ.get("VERIF_ROOT", "/verif"), timeout=3600)
             lines = [l for l in out.split("\n") if l.startswith("VIOLATION")]
             report["caught_by"][c] = {"exit": rc, "violations": lines[:3]}
             # keep the first replay as the recorded catch
